@@ -10,6 +10,7 @@ import (
 	"fmt"
 	"os"
 	"runtime"
+	"strings"
 	"sync"
 	"time"
 	"unsafe"
@@ -296,8 +297,25 @@ func (c *vController) me() string {
 	if n, ok := c.names[id]; ok {
 		return n
 	}
-	c.names[id] = c.unknown
-	return c.unknown
+	// a goroutine the library started itself: named after the registered
+	// goroutine that created it ("serve/Serve$1", "serve2/Serve$1")
+	parent := "serve"
+	buf := make([]byte, 1<<16)
+	st := string(buf[:runtime.Stack(buf, false)])
+	if i := strings.LastIndex(st, " in goroutine "); i >= 0 {
+		var pid int64
+		for _, ch := range st[i+len(" in goroutine "):] {
+			if ch < '0' || ch > '9' {
+				break
+			}
+			pid = pid*10 + int64(ch-'0')
+		}
+		if pn, ok := c.names[pid]; ok {
+			parent = pn
+		}
+	}
+	c.names[id] = parent + c.unknown
+	return parent + c.unknown
 }
 
 // tryRelease lets the next scheduled thread go if it is waiting, but only
